@@ -74,7 +74,7 @@ var c20Model = porcupine.Model{
 			if o.err {
 				return s == "", s
 			}
-			return o.ret == s && s != "", ""
+			return o.ret == s, "" // removing an absent key without an error (returning nothing) is a legal no-op as well
 		}
 		return false, st
 	},
